@@ -8,7 +8,7 @@ RULE = ('documents over keys {"", "/", "~", "~0", "~1", "a/b", "m~n", "0", "01",
         'indices around 2^64 and 2^32, 20-25 digit indices; all (root,node) pairs for construction; the verdict is a python RFC 6901 evaluator; '
         'non-trivial = distinct (doc,pointer) with a non-empty pointer')
 ASSUMPTIONS = ['C locale', 'hand-written transliteration validated by this differential run', 'documents have distinct keys per object (as the property says)']
-PKEYS = ['', '/', '~', '~0', '~1', 'a/b', 'm~n', '0', '01', '1', 'a', 'A', '-', '10', 'a~', '~~', '//']
+PKEYS = ['', '/', '~', '~0', '~1', 'a/b', 'm~n', '0', '01', '1', 'a', 'A', '-', '10', 'a~', '~~', '//', 'a/a', 'a/0', '0/1', '/a', 'a/', 'a/a/0', '~/', '1/0']
 
 def esc(k): return k.replace('~', '~0').replace('/', '~1')
 
@@ -47,6 +47,25 @@ def construct(doc, path):
         else: p += '/' + str(i); cur = cur[i]
     return p.encode('utf-8')
 
+def raw_pointer(doc, path):
+    """the WRONG pointer a naive user would write: keys concatenated without escaping (aims at token-boundary handling)"""
+    p = ''; cur = doc
+    for i in path:
+        if isinstance(cur, Obj): p += '/' + cur[i][0]; cur = cur[i][1]
+        else: p += '/' + str(i); cur = cur[i]
+    return p.encode('utf-8')
+
+def flagged_tokens(v, rng, key=None):
+    """like value_tokens, with ownership flags at random: constant keys on any node, reference bit on leaves"""
+    fl = rng.choice([0, 0, 0, F_CONST]) if key is not None else 0
+    if isinstance(v, Obj): return node_tokens(T_OBJECT | fl, key=key, children=[flagged_tokens(e, rng, key=k) for k, e in v])
+    if isinstance(v, list): return node_tokens(T_ARRAY | fl, key=key, children=[flagged_tokens(e, rng) for e in v])
+    if isinstance(v, str): return node_tokens(T_STRING | fl | rng.choice([0, 0, F_REF]), vs=v, key=key)
+    if v is None: return node_tokens(T_NULL | fl, key=key)
+    if v is True: return node_tokens(T_TRUE | fl, key=key)
+    if v is False: return node_tokens(T_FALSE | fl, key=key)
+    return node_tokens(T_NUMBER | fl, vi=sat_int(v), vd=float(v), key=key)
+
 def corpus(ctx): return load_corpus(ctx['verif'], 'C15')
 
 def rand_doc(rng, depth):
@@ -70,12 +89,16 @@ def generate(ctx):
     special = [b'/18446744073709551616', b'/18446744073709551615', b'/18446744073709551617', b'/18446744073709551619', b'/4294967296', b'/4294967297',
                b'/00', b'/01', b'/1A', b'/1 ', b'/ 1', b'/+1', b'/-', b'/-1', b'/', b'//', b'abc', b'a', b'/1/', b'/99999999999999999999', b'/1844674407370955161',
                b'/184467440737095516150', b'/1844674407370955162', b'/0/0', b'/000000000000000000001', b'/27', b'/1e0', b'/0x1', b'/~', b'/~2', b'/a~', b'/~01', b'/~10']
+    # keys that contain '/' with containers beneath whose members are named like the part after the slash
+    docs += [Obj([('a/a', Obj([('a', 1), ('0', 2)])), ('a', Obj([('a', 3), ('a/a', 4)]))]), Obj([('a/0', [5, 6]), ('a', [7, 8])]),
+             Obj([('0/1', [1, [2, 3]]), ('0', [4, [5, 6]])]), [Obj([('a/a', [1])]), Obj([('a', Obj([('a', [2])]))])],
+             Obj([('/', Obj([('', 1)])), ('', Obj([('', 2), ('/', 3)]))]), Obj([('~/', [1]), ('~', Obj([('', [2])]))])]
     for d in docs:
-        tt = ' '.join(value_tokens(d))
+        tt = ' '.join(flagged_tokens(d, rng) if rng.random() < 0.5 else value_tokens(d))
         ptrs = set()
         paths = list(all_paths(d))
         for p in (paths if quick and len(paths) <= 25 else rng.sample(paths, min(len(paths), 25 if quick else 60))):
-            good = construct(d, p); ptrs.add(good)
+            good = construct(d, p); ptrs.add(good); ptrs.add(raw_pointer(d, p))
             cases.append(Case('findptr %s %s' % (pstr(p), tt), {'tags': ['construct'], 'doc': d, 'path': p}))
             for _ in range(3):   # single-edit corruptions
                 b = bytearray(good)
